@@ -394,6 +394,9 @@ public:
 
     if (m_var.get_type().is_bool()) {
       dom.assign_bool_var(m_var, rhs.m_var, false);
+    } else if (m_var.get_type().is_array()) {
+      // the ghost of an array region is an array variable
+      dom.array_assign(m_var, rhs.m_var);
     } else {
       dom.assign(m_var, rhs.m_var);
     }
